@@ -24,7 +24,9 @@ INSTANTS = [  # rank = index + 1, canonical RFC3339Nano spelling (UTC), strictly
 ALT_SPELLINGS = {2: "2020-01-01T02:00:00+02:00", 4: "2020-06-01T05:30:00.5-07:00"}
 
 STR = ["/u", "/v", "a", "b", "c", "p", "q", "r", "ab", "B", "_", "s",
-       "/_", "v", "_subject", "_predicate", "_object", "n"]  # index+1 = string id
+       "/_", "v", "_subject", "_predicate", "_object", "n",
+       "a b", "a!"]  # index+1 = string id; the last two: the character after the common prefix is smaller than '"'
+                     # (lexicographically "a" < "a b", while the QUOTED forms order the other way round)
 
 
 def sid(s):
@@ -161,6 +163,8 @@ TRIPLES = [  # (s, p, o)
     (4, 1, FE(5)),           # 41 /u<c> p@[] 2.980232238769531e-07  (5 * 2^-24): both print as 0.000000 with 6 decimals
     (1, ("s", 7), I(4)),     # 42 /u<a> s@[i7] 4: anchored in 2525, outside the UnixNano range
     (2, ("p", 7), N(1)),     # 43 /u<b> p@[i7] /u<a>
+    (3, 4, X("a b")),        # 44 /v<a> q@[] "a b"^^text
+    (4, 4, X("a!")),         # 45 /u<c> q@[] "a!"^^text
 ]
 TRIPLES = [(t[0], pred_index(*t[1]) if isinstance(t[1], tuple) else t[1]) + tuple(t[2:]) for t in TRIPLES]
 
